@@ -283,6 +283,7 @@ static void run_threads_body(const Plan &p, World &w, Ctx &x, RunOut &out, bool 
         cx[c].pool.reserve(256);
     }
     volatile bool stop = false;
+    volatile bool stop_clean = false;     // a client gave up (another property's oracle) while the schedule was still healthy
     std::vector<std::function<void()>> bodies;
     for (size_t c = 0; c < nc; c++) {
         bodies.push_back([&, c]() {
@@ -299,7 +300,7 @@ static void run_threads_body(const Plan &p, World &w, Ctx &x, RunOut &out, bool 
                     sim_op_begin((int)i, 0, 0);
                     h.got = w.sut_apply(op, me);
                     sim_op_end();
-                } catch (Abort &) { stop = true; h.res = sim_event(); break; }
+                } catch (Abort &) { if (!sim_poisoned()) stop_clean = true; stop = true; h.res = sim_event(); break; }
                 if (w.is_mutation(op) && !h.got.fail) me.mutations++;
                 me.st.add("ops");
                 h.res = sim_event();
@@ -332,6 +333,9 @@ static void run_threads_body(const Plan &p, World &w, Ctx &x, RunOut &out, bool 
     try {
         for (size_t c = 0; c < nc; c++) if (cx[c].failed) { x.failed = true; x.v = cx[c].v; throw Abort(); }
         if (so.truncated) { out.truncated = true; x.st.add("truncated"); throw Abort(); }
+        // a client that gave up in the middle of its own lock()/unlock() section leaves the lock held: what follows
+        // (waiters starving, depth left over) is the harness's doing, not a verdict about the library's locking
+        if (stop_clean) throw Abort();
         if (so.deadlock) {
             x.cur_opname = "schedule";
             x.fail("no-progress", "lock", "every live thread waits for the container lock and nobody will release it");
@@ -408,6 +412,7 @@ void execute_plan(const Plan &p, RunOut &out, bool verbose, const std::string &s
         bool lockbal = p.mode == "lockbal";
         int tgt = (int)p.cfg.get("tgt");
         auto run_case = [&](const Plan &dp, Ctx &x) {
+            sim_clock_reset();      // every derived case starts at the same simulated instant as its stand-alone replay
             SeqOpts so; so.ctor_fk = (int)dp.cfg.get("ctor_fk"); so.ctor_fm = (int)dp.cfg.get("ctor_fm");
             so.probe = lockbal; so.probe_at = (int)dp.cfg.get("tgt");
             if (!lockbal) { run_seq_body(dp, *w, x, so); return; }
